@@ -454,6 +454,10 @@ impl<'a> Sim<'a> {
         if stats.power_events > 0 {
             self.bump("resolve.with-power-events");
         }
+        if stats.partial_pl_overrides_unconflicted {
+            self.bump("resolve.partial-pl-overrides-unconflicted");
+            self.flag("sr.partial-pl-overrides");
+        }
         if stats.conflicted_keys > 0 {
             self.bump("resolve.conflicted");
         }
